@@ -42,10 +42,16 @@ FUNCS = {
     "nocompile": "nocompile = qlassf('def nocompile(a: bool, b: bool) -> bool:\\n    return a ^ b', to_compile=False)\n",
     "nocompile2": "@qlassfa(to_compile=False)\ndef nocompile2(a: bool, b: bool, c: bool) -> bool:\n    return (a and b) or c\n",
     "bound": "_unbound = qlassf('def bound(c: Parameter[bool], a: bool, b: bool) -> bool:\\n    return (a or b) and c')\nbound = _unbound.bind(c=True)\n",
+    # DIFFERENT functions whose def name is the same (two bindings of one parameterised function; two source strings): module-level names select
+    "bt": "_ub = qlassf('def same(c: Parameter[bool], a: bool, b: bool) -> bool:\\n    return (a or b) if c else (a and b)')\nbt = _ub.bind(c=True)\n",
+    "bf": "bf = _ub.bind(c=False)\n",
+    "sa": "sa = qlassf('def same2(a: bool, b: bool) -> bool:\\n    return a and not b', to_compile=False)\n",
+    "sb": "sb = qlassf('def same2(a: bool, b: bool) -> bool:\\n    return a or b', to_compile=False)\n",
 }
 
 SCRIPTS = [["and2"], ["or3"], ["lit"], ["nlit"], ["const"], ["xor3"], ["maj"], ["shared"], ["gt"], ["pair"], ["add"], ["eq3"],
-           ["lit", "maj"], ["xor3", "and2", "gt"], ["pair", "nlit"], ["fromstr"], ["bound"], ["fromstr", "and2"], ["nocompile"], ["nocompile2"]]
+           ["lit", "maj"], ["xor3", "and2", "gt"], ["pair", "nlit"], ["fromstr"], ["bound"], ["fromstr", "and2"], ["nocompile"], ["nocompile2"],
+           ["bt", "bf"], ["sa", "sb"]]
 # how the script reaches the tool / where the output goes (the statement speaks of scripts, not of file names)
 IO_MODES = [("stdin", "stdout"), ("script.py", "stdout"), ("script.txt", "stdout"), ("noextension", "stdout"), ("dir.v2/my-script.py", "out.txt"), ("stdin", "out.txt")]
 FORMS = [None, "anf", "cnf", "dnf", "nnf"]
@@ -361,7 +367,7 @@ def run(tier, only=None):
     for sh in DIMACS_SHAPES:
         jobs.append((job_dimacs, (sh,)))
     from . import c01_l3
-    fam = [x for x in c01_l3.family(tier) if x[0] != "outside" and "Q." not in x[1] and "Parameter[" not in x[1]]
+    fam = [x for x in c01_l3.family(tier, front=True) if x[0] != "outside" and "Q." not in x[1] and "Parameter[" not in x[1]]
     allc = [(f, t) for f in FORMS for t in FORMATS]
     items = [(o, src, allc if tier == "thorough" else [allc[(2 * i) % 10], allc[(2 * i + 5) % 10]]) for i, (o, src) in enumerate(fam)]
     for lo in range(0, len(items), 6):
